@@ -49,6 +49,20 @@ Theorem C02_count_additive : forall q g sel,
 Proof. exact group_sizes_add_up. Qed.
 Print Assumptions C02_count_additive.
 
+(* ... and so do group-wise integer sums (any integer weight of the rows, in fact) *)
+Theorem C02_weights_additive : forall q g (w : row -> Z) sel,
+  zsum (map (fun k => wsum w (members q g sel k)) (group_keys q g sel)) = wsum w sel.
+Proof. exact weights_add_up. Qed.
+Print Assumptions C02_weights_additive.
+Theorem C02_sum_int : forall e rows, int_or_null e rows ->
+  fold_agg {| afun := ASum (VInt 0); aarg := e |} rows = VInt (wsum (int_weight e) rows).
+Proof. exact sum_int_spec. Qed.
+Print Assumptions C02_sum_int.
+Theorem C02_sum_int_additive : forall q g e sel,
+  zsum (map (fun k => wsum (int_weight e) (members q g sel k)) (group_keys q g sel)) = wsum (int_weight e) sel.
+Proof. exact sum_int_additive. Qed.
+Print Assumptions C02_sum_int_additive.
+
 (* what each aggregate function folds to *)
 Theorem C02_count_star : forall e rows, fold_agg {| afun := ACountStar; aarg := e |} rows = VInt (Z.of_nat (length rows)).
 Proof. exact count_star_spec. Qed.
